@@ -122,9 +122,11 @@ def light(ex):
 
 # --------------------------------------------------------------------- reference
 
-def reference(spec, opts):
+def reference(spec, opts, cap=None):
     inst = rm.Inst(spec, opts['twopl'])
-    ref = {'inst': inst, 'enumerable': inst.n_acceptable_assignments() <= ENUM_CAP}
+    if cap is None:
+        cap = 60000 if spec.get('shape') == 'shipped' else ENUM_CAP
+    ref = {'inst': inst, 'enumerable': inst.n_acceptable_assignments() <= cap}
     if not ref['enumerable']:
         return ref
     valid = rm.enumerate_valid(inst, opts['pc'])
